@@ -45,7 +45,7 @@ struct Outcome {
 }
 
 /// uniform access to the per-type inherent hook functions
-trait Hk: Digest + Default {
+trait Hk: Digest + Default + digest::FixedOutput + digest::Reset + digest::Update {
     fn set(&mut self, x: &[u8], t: (u64, u64), buffered: &[u8]);
     fn get(&self) -> (Vec<u8>, (u64, u64), Vec<u8>, usize);
 }
@@ -72,6 +72,21 @@ impl_hk!(Skein1024);
 fn run_typed<H: Hk>(inp: &Input) -> Outcome {
     let r = catch_unwind(AssertUnwindSafe(|| {
         let mut h = H::default();
+        // half of the un-hooked cases reuse an object that has already produced a digest in place
+        // (FixedOutput::finalize_fixed_reset) or absorbed data and was reset
+        if inp.hook.is_none() {
+            match (inp.msg.len() + inp.split) % 4 {
+                2 => {
+                    digest::Update::update(&mut h, &inp.msg[..inp.msg.len().min(5)]);
+                    let _ = digest::FixedOutput::finalize_fixed_reset(&mut h);
+                }
+                3 => {
+                    digest::Update::update(&mut h, &[0x5au8; 200][..]);
+                    digest::Reset::reset(&mut h);
+                }
+                _ => {}
+            }
+        }
         if let Some(hk) = &inp.hook {
             h.set(&hk.x, (hk.t0, hk.t1), &hk.buffered);
         }
